@@ -23,6 +23,11 @@ package evaluator
 //@ spec boolObj(b bool) object.Object = iface(ite(b, TRUE, FALSE))
 //@ spec isErr(o object.Object) bool = istype(o, *object.Error)
 
+// hasCtl(o, t): o is a control object of type t, or a block that (recursively) contains one
+//@ spec hasCtl(o object.Object, t object.ObjectType) bool
+//@ axiom hasCtlDef(o object.Object, t object.ObjectType): hasCtl(o, t) == ite(istype(o, *object.Block),
+//@        exists(k, 0, len(as(o, *object.Block).Elements), hasCtl(as(o, *object.Block).Elements[k], t)), t == objType(o))
+
 //@ func isTruthy
 //@   ensures result == truthy(obj)
 //@   modifies nothing
@@ -39,13 +44,18 @@ package evaluator
 
 //@ func hasBreakStmt
 //@   requires obj != nil
+//@   ensures result == hasCtl(obj, object.BREAK_OBJ)
 //@   modifies nothing
 //@ func hasContinueStmt
 //@   requires obj != nil
+//@   ensures result == hasCtl(obj, object.CONTINUE_OBJ)
 //@   modifies nothing
 //@ func hasControlStmt
 //@   requires obj != nil
+//@   use hasCtlDef(obj, controlType)
+//@   ensures result == hasCtl(obj, controlType)
 //@   modifies nothing
+//@   loop 0: invariant forall(j, 0, rangeindex+1, !hasCtl(block.Elements[j], controlType))
 
 //@ func hasCustomFunc
 //@   ensures result ==> customFunc != nil
@@ -112,12 +122,19 @@ package evaluator
 //@   modifies contents(env.store)
 
 //@ func (e *Evaluator) evalBlockStmt
+//@   goal control-ends-the-block: istype(result, *object.Block) ==> forall(j, 0, len(as(result, *object.Block).Elements)-1,
+//@        !hasCtl(as(result, *object.Block).Elements[j], object.BREAK_OBJ) && !hasCtl(as(result, *object.Block).Elements[j], object.CONTINUE_OBJ))
+//@   call Eval#0: assert in-order-same-scope: arg1 == block.Statements[rangeindex] && arg2 == env && len(elems) == rangeindex
+//@   loop 0: invariant len(elems) == rangeindex+1 && forall(j, 0, len(elems), !hasCtl(elems[j], object.BREAK_OBJ) && !hasCtl(elems[j], object.CONTINUE_OBJ))
 //@   requires block != nil && WFNode(iface(block)) && env != nil
 //@   use wfBlockStmt(block)
 //@   ensures result != nil
 //@   modifies contents(env.store)
 
 //@ func (e *Evaluator) evalAssignStmt
+//@   call Set#0: bind setErr
+//@   call Set#0: assert assigns-in-current-scope: arg0 == env && arg1 == node.Name.Value
+//@   goal assignment-error-surfaces: setErr != nil ==> isErr(result)
 //@   requires node != nil && WFNode(iface(node)) && env != nil
 //@   use wfAssignStmt(node)
 //@   ensures result != nil
@@ -137,6 +154,13 @@ package evaluator
 //@   modifies contents(env.store)
 
 //@ func (e *Evaluator) evalComponentStmt
+//@   call NewEnclosedEnv#0: assert component-scope-encloses-the-caller: arg0 == env
+//@   call Eval#1: assert argument-evaluated-at-place-of-use: arg2 == env
+//@   call Set#0: bind setErr
+//@   call Set#0: assert argument-bound-in-component-scope: arg0 == newEnv && arg1 == key && arg2 == val
+//@   call Eval#2: assert body-in-component-scope: arg1 == iface(node.Block) && arg2 == newEnv
+//@   loop 0: continues-only-if args-bound: setErr == nil
+//@   loop 0: invariant newEnv != nil && fresh(newEnv) && newEnv.outer == env && fresh(stmt) && name != nil
 //@   requires node != nil && WFNode(iface(node)) && env != nil
 //@   use wfComponentStmt(node)
 //@   use wfObjectLiteral(node.Argument)
@@ -144,6 +168,13 @@ package evaluator
 //@   modifies contents(env.store)
 
 //@ func (e *Evaluator) evalForStmt
+//@   call NewEnclosedEnv#0: assert loop-scope-encloses-the-caller: arg0 == env
+//@   call Eval#0: assert init-in-loop-scope: arg1 == node.Init && arg2 == newEnv
+//@   call Eval#2: assert else-iff-condition-false-at-entry: !truthy(cond__0) && arg1 == iface(node.Alternative) && arg2 == newEnv
+//@   call Eval#3: assert condition-each-pass: arg1 == node.Condition && arg2 == newEnv
+//@   call Eval#4: assert body-only-while-truthy: (node.Condition != nil ==> truthy(cond__1)) && arg1 == iface(node.Block) && arg2 == newEnv
+//@   call Eval#5: assert post-after-each-pass: arg1 == node.Post && arg2 == newEnv
+//@   goal loop-result-is-text: !isErr(result) && istype(result, *object.HTML) || isErr(result) || node.Alternative != nil
 //@   requires node != nil && WFNode(iface(node)) && env != nil
 //@   use wfForStmt(node)
 //@   ensures result != nil
@@ -152,6 +183,16 @@ package evaluator
 //@   modifies contents(env.store)
 
 //@ func (e *Evaluator) evalEachStmt
+//@   call NewEnclosedEnv#0: assert loop-scope-encloses-the-caller: arg0 == env
+//@   call Eval#1: assert else-iff-empty: elemsLen == 0 && arg1 == iface(node.Alternative) && arg2 == newEnv
+//@   call Set#0: assert binds-element-in-order: arg0 == newEnv && arg1 == node.Var.Value && arg2 == elems[rangeindex] && i == rangeindex
+//@   call SetLoopVar#0: assert loop-meta: arg0 == newEnv && isInt(arg1["index"], i) && isInt(arg1["iter"], i+1)
+//@        && arg1["first"] == boolObj(i == 0) && arg1["last"] == boolObj(i == len(elems)-1)
+//@   call Eval#2: assert body-in-loop-scope: arg1 == iface(node.Block) && arg2 == newEnv
+//@   goal non-array-is-error: !isErr(arrObj) && !istype(arrObj, *object.Array) ==> isErr(result)
+//@   goal loop-result-is-text: !isErr(result) ==> istype(result, *object.HTML) || (elemsLen == 0 && node.Alternative != nil)
+//@   loop 0: invariant newEnv != nil && fresh(newEnv) && newEnv.outer == env && elemsLen == len(elems) && istype(arrObj, *object.Array)
+//@   loop 0: invariant rangeindex >= 0 ==> !hasCtl(block, object.BREAK_OBJ)
 //@   requires node != nil && WFNode(iface(node)) && env != nil
 //@   use wfEachStmt(node)
 //@   ensures result != nil
